@@ -1,6 +1,33 @@
 ---- MODULE LogWriter ----
+(* WAL writer of record/log_writer.go: one producer (SyncRecord* calls, then  *)
+(* Close), the flushLoop goroutine, the min-sync-interval timer, and the       *)
+(* sync waiters.  Offsets are in abstract units: record i is one unit and ends  *)
+(* at offset i; a block holds C units.  Action <-> code map:                    *)
+(*   PEmit        emitFragment* (block.written.Store)                           *)
+(*   PQueueBlock  queueBlock (lock, append to flusher.pending, Signal)          *)
+(*   PPush        SyncRecordGeneralized: pendingSyncs.push                      *)
+(*   PSignal      SyncRecordGeneralized: flusher.ready.Signal                   *)
+(*   PTrailer     closeInternal: emitEOFTrailer                                 *)
+(*   PCloseLock   closeInternal: f.close = true; Signal                         *)
+(*   PFinalSync   closeInternal: <-f.closed; final Sync; (index mode) callback   *)
+(*   FCheck       flushLoop inner loop (work? close? Wait)                      *)
+(*   FWaitUnlock  flusherCond.Unlock inside cond.Wait (re-checks !q.empty())    *)
+(*   FWake        cond.Wait returns, mutex re-acquired                          *)
+(*   FTake        pending = f.pending; f.pending = nil                          *)
+(*   FSnap        snap := f.pendingSyncs.snapshotForPop()                       *)
+(*   FReadW       written := w.block.written.Load(); data = buf[flushed:written] *)
+(*   FUnlock      fErr := f.err; f.Unlock()                                     *)
+(*   FPopErr      fErr != nil branch: pendingSyncs.pop(snap, fErr), no I/O      *)
+(*   FWrite       flushPending: flushBlock* + w.w.Write(data)                   *)
+(*   FSync        flushPending: w.s.Sync() iff !snap.empty() and no error       *)
+(*   FPop         flushPending: pendingSyncs.pop(snap, err)                     *)
+(*   FRelock      f.Lock(); syncedOffset.Store; f.err = err; setBlocked+timer   *)
+(*   TimerFire    afterFunc callback: clearBlocked; Signal                      *)
+(* Index = TRUE selects pendingSyncsWithHighestSyncIndex (failover mode):       *)
+(* qhead then holds the highest pushed sync index (0 = NoSyncIndex), a pop      *)
+(* releases every waiter <= the snapshotted index through the external callback. *)
 EXTENDS Integers, Sequences, FiniteSets, TLC
-CONSTANTS N, C, SyncSet, MinSync, MaxFaults, BugReadWrittenFirst, BugPopBeforeSync
+CONSTANTS N, C, SyncSet, MinSync, MaxFaults, Index, BugReadWrittenFirst, BugPopBeforeSync, BugIgnoreFErr
 \* records 1..N, one unit each; blocks hold C units; SyncSet \subseteq 1..N request sync
 VARIABLES ppc, rec, bw, bf, pending, qhead, qtail, blocked, timerArmed,
           fpc, lock, waiting, notified, snapH, snapT, pend, data, fErr, curErr, didSync,
@@ -18,7 +45,8 @@ Init ==
   /\ snapH = 0 /\ snapT = 0 /\ pend = <<>> /\ data = 0 /\ fErr = FALSE /\ curErr = FALSE /\ didSync = FALSE
   /\ fileW = 0 /\ fileS = 0 /\ close = FALSE /\ closed = FALSE
   /\ released = {} /\ werr = {} /\ faults = 0 /\ writtenOff = 0 /\ syncedOff = 0
-QEmptyEff == blocked \/ qhead = qtail
+QEmptyRaw == IF Index THEN qhead = 0 ELSE qhead = qtail
+QEmptyEff == blocked \/ QEmptyRaw
 Signal == IF waiting /\ ~notified THEN notified' = TRUE ELSE notified' = notified
 \* ---------------- producer ----------------
 PEmit == ppc = "emit" /\ rec <= N /\ bw' = bw + 1
@@ -29,7 +57,7 @@ PQueueBlock == ppc = "queueBlock" /\ lock = "none"
   /\ ppc' = (IF rec > N THEN "closeLock" ELSE "push")
   /\ UNCHANGED <<rec, qhead, qtail, blocked, timerArmed, fpc, lock, waiting, snapH, snapT, pend, data, fErr, curErr, didSync, fileW, fileS, close, closed, released, werr, faults, writtenOff, syncedOff>>
 PPush == ppc = "push"
-  /\ (IF rec \in SyncSet THEN qhead' = qhead + 1 /\ ppc' = "signal" ELSE qhead' = qhead /\ ppc' = "emit")
+  /\ (IF rec \in SyncSet THEN qhead' = (IF Index THEN rec ELSE qhead + 1) /\ ppc' = "signal" ELSE qhead' = qhead /\ ppc' = "emit")
   /\ rec' = (IF rec \in SyncSet THEN rec ELSE rec + 1)
   /\ UNCHANGED <<bw, bf, pending, qtail, blocked, timerArmed, fpc, lock, waiting, notified, snapH, snapT, pend, data, fErr, curErr, didSync, fileW, fileS, close, closed, released, werr, faults, writtenOff, syncedOff>>
 PSignal == ppc = "signal" /\ Signal /\ rec' = rec + 1 /\ ppc' = "emit"
@@ -41,13 +69,17 @@ PTrailer == ppc = "emit" /\ rec > N /\ bw' = bw + 1
 PCloseLock == ppc = "closeLock" /\ lock = "none" /\ close' = TRUE /\ Signal /\ ppc' = "waitClosed"
   /\ UNCHANGED <<rec, bw, bf, pending, qhead, qtail, blocked, timerArmed, fpc, lock, waiting, snapH, snapT, pend, data, fErr, curErr, didSync, fileW, fileS, closed, released, werr, faults, writtenOff, syncedOff>>
 PFinalSync == ppc = "waitClosed" /\ closed /\ ppc' = "done"
-  /\ fileS' = (IF fErr THEN fileS ELSE fileW)
-  /\ UNCHANGED <<rec, bw, bf, pending, qhead, qtail, blocked, timerArmed, fpc, lock, waiting, notified, snapH, snapT, pend, data, fErr, curErr, didSync, fileW, close, closed, released, werr, faults, writtenOff, syncedOff>>
+  /\ \E fail \in (IF ~fErr /\ faults < MaxFaults THEN {TRUE, FALSE} ELSE {FALSE}) :
+       /\ faults' = (IF fail THEN faults + 1 ELSE faults)
+       /\ fileS' = (IF fErr \/ fail THEN fileS ELSE fileW)
+       /\ (IF Index THEN released' = SyncSet /\ werr' = (IF fErr \/ fail THEN werr \cup (SyncSet \ released) ELSE werr)
+           ELSE released' = released /\ werr' = werr)
+  /\ UNCHANGED <<rec, bw, bf, pending, qhead, qtail, blocked, timerArmed, fpc, lock, waiting, notified, snapH, snapT, pend, data, fErr, curErr, didSync, fileW, close, closed, writtenOff, syncedOff>>
 \* ---------------- flusher ----------------
 FCheck == fpc = "check" /\ lock = "f"
   /\ (IF Len(pending) > 0 \/ bw > bf \/ ~QEmptyEff THEN fpc' = "take" /\ UNCHANGED <<blocked, waiting, notified, closed, lock>>
      ELSE IF close THEN
-        (IF qhead # qtail THEN blocked' = FALSE /\ fpc' = "take" /\ UNCHANGED <<waiting, notified, closed, lock>>
+        (IF ~QEmptyRaw THEN blocked' = FALSE /\ fpc' = "take" /\ UNCHANGED <<waiting, notified, closed, lock>>
         ELSE blocked' = FALSE /\ fpc' = "exit" /\ closed' = TRUE /\ lock' = "none" /\ UNCHANGED <<waiting, notified>>)
      ELSE (fpc' = "waitUnlock" /\ waiting' = TRUE /\ notified' = FALSE /\ UNCHANGED <<blocked, closed, lock>>))
   /\ UNCHANGED <<ppc, rec, bw, bf, pending, qhead, qtail, timerArmed, snapH, snapT, pend, data, fErr, curErr, didSync, fileW, fileS, close, released, werr, faults, writtenOff, syncedOff>>
@@ -69,10 +101,14 @@ FReadW == fpc = "readW" /\ data' = bw - bf /\ bf' = bw
   /\ UNCHANGED <<ppc, rec, bw, pending, qhead, qtail, blocked, timerArmed, lock, waiting, notified, snapH, snapT, pend, fErr, curErr, didSync, fileW, fileS, close, closed, released, werr, faults, writtenOff, syncedOff>>
 FUnlock == fpc = "unlock" /\ lock' = "none" /\ fpc' = (IF fErr THEN "popErr" ELSE "write")
   /\ UNCHANGED <<ppc, rec, bw, bf, pending, qhead, qtail, blocked, timerArmed, waiting, notified, snapH, snapT, pend, data, fErr, curErr, didSync, fileW, fileS, close, closed, released, werr, faults, writtenOff, syncedOff>>
-PopSet == {SyncSeq[k + 1] : k \in snapT..(snapH - 1)}
-FPopErr == fpc = "popErr" /\ released' = released \cup PopSet /\ werr' = werr \cup PopSet
-  /\ qtail' = (IF snapH > snapT THEN snapH ELSE qtail) /\ fpc' = "relockErr"
-  /\ UNCHANGED <<ppc, rec, bw, bf, pending, qhead, blocked, timerArmed, lock, waiting, notified, snapH, snapT, pend, data, fErr, curErr, didSync, fileW, fileS, close, closed, faults, writtenOff, syncedOff>>
+PopSet == IF Index THEN {w \in SyncSet : w <= snapH} \ released ELSE {SyncSeq[k + 1] : k \in snapT..(snapH - 1)}
+\* queue: tail moves past the popped slots; index: CompareAndSwap(snap, NoSyncIndex)
+PopQ == IF Index THEN qtail' = qtail /\ qhead' = (IF qhead = snapH THEN 0 ELSE qhead)
+        ELSE qhead' = qhead /\ qtail' = (IF snapH > snapT THEN snapH ELSE qtail)
+FPopErr == fpc = "popErr" /\ released' = released \cup PopSet
+  /\ werr' = (IF BugIgnoreFErr THEN werr ELSE werr \cup PopSet)
+  /\ PopQ /\ fpc' = "relockErr"
+  /\ UNCHANGED <<ppc, rec, bw, bf, pending, blocked, timerArmed, lock, waiting, notified, snapH, snapT, pend, data, fErr, curErr, didSync, fileW, fileS, close, closed, faults, writtenOff, syncedOff>>
 FRelockErr == fpc = "relockErr" /\ lock = "none" /\ lock' = "f" /\ fpc' = "check"
   /\ UNCHANGED <<ppc, rec, bw, bf, pending, qhead, qtail, blocked, timerArmed, waiting, notified, snapH, snapT, pend, data, fErr, curErr, didSync, fileW, fileS, close, closed, released, werr, faults, writtenOff, syncedOff>>
 SumPend == LET F[i \in 0..Len(pend)] == IF i = 0 THEN 0 ELSE F[i-1] + (C - pend[i]) IN F[Len(pend)]
@@ -95,9 +131,9 @@ FSync == fpc = "sync"
   /\ UNCHANGED <<ppc, rec, bw, bf, pending, qhead, qtail, blocked, timerArmed, lock, waiting, notified, snapH, snapT, pend, data, fErr, fileW, close, closed, released, werr, writtenOff, syncedOff>>
 FPop == fpc = "pop" /\ released' = released \cup PopSet
   /\ werr' = (IF curErr THEN werr \cup PopSet ELSE werr)
-  /\ qtail' = (IF snapH > snapT THEN snapH ELSE qtail)
+  /\ PopQ
   /\ fpc' = (IF BugPopBeforeSync THEN "sync" ELSE "relock")
-  /\ UNCHANGED <<ppc, rec, bw, bf, pending, qhead, blocked, timerArmed, lock, waiting, notified, snapH, snapT, pend, data, fErr, curErr, didSync, fileW, fileS, close, closed, faults, writtenOff, syncedOff>>
+  /\ UNCHANGED <<ppc, rec, bw, bf, pending, blocked, timerArmed, lock, waiting, notified, snapH, snapT, pend, data, fErr, curErr, didSync, fileW, fileS, close, closed, faults, writtenOff, syncedOff>>
 FRelock == fpc = "relock" /\ lock = "none" /\ lock' = "f" /\ fErr' = curErr
   /\ syncedOff' = (IF didSync /\ ~curErr THEN writtenOff ELSE syncedOff)
   /\ (IF curErr THEN blocked' = FALSE /\ timerArmed' = timerArmed
@@ -114,6 +150,10 @@ Spec == Init /\ [][Next]_vars /\ WF_vars(Next)
 \* record i ends at unit offset i
 ReleasedImpliesSynced == \A w \in released : (w \notin werr) => fileS >= w
 SyncedOffSound == syncedOff <= fileS
+\* errors originate only in injected write/sync failures
+ErrorsOnlyAfterFault == werr # {} => faults > 0
+\* after the end every waiter whose bytes are not synced carries an error
+ErrorsDelivered == (ppc = "done") => \A w \in Waiters : (w \in released /\ (fileS >= w \/ w \in werr))
 Finished == ppc = "done"
 AllReleasedAtEnd == Finished => released = Waiters
 NoDeadlock == Finished \/ ENABLED Next
